@@ -71,7 +71,8 @@ fn fault_rate(rng: &mut Rng, structural: bool) -> f64 {
 fn push_fault(plan: &mut Plan, rng: &mut Rng) {
     match rng.below(5) {
         0 | 1 => plan.push("N", &[]),
-        2 | 3 => plan.push("E", &[1]),
+        2 => plan.push("E", &[1]),
+        3 => plan.push("E", &[if rng.chance(0.5) { 1 } else { 3 }]),
         _ => plan.push("E", &[2]),
     }
 }
@@ -162,6 +163,14 @@ pub fn gen_node(prop: &str, kind: &str, profile: u8, tier: Tier, rng: &mut Rng, 
         tg.lo = (w / 16).max(1);
         tg.hi = (w / 2).max(2).max(tg.lo);
     }
+    // C11 and C12 put no lower bound on the sampling interval: a sixth of their runs sample at
+    // nanosecond spacing (1 ns .. 1 us, with the f32::EPSILON-second neighbourhood as special values)
+    let mut tiny_dt = false;
+    if matches!(kind, "cpid" | "ewma_f" | "ewma_q") && rng.chance(0.17) {
+        tg.lo = 1;
+        tg.hi = *rng.pick(&[8, 200, 1_000, 1_000_000]);
+        tiny_dt = true;
+    }
     let extra_get_p = if profile == 0 { 0.25 } else { 0.05 };
     let ill = prop == "C19ill";
     let misdim_p = if ill {
@@ -211,7 +220,7 @@ pub fn gen_node(prop: &str, kind: &str, profile: u8, tier: Tier, rng: &mut Rng, 
                 6 => plan.push("FN", &[]),
                 _ => {
                     if rng.chance(0.5) {
-                        plan.push("FE", &[rng.range(1, 2)]);
+                        plan.push("FE", &[rng.range(1, 3)]);
                     } else {
                         plan.push("RESET", &[]);
                     }
@@ -221,7 +230,7 @@ pub fn gen_node(prop: &str, kind: &str, profile: u8, tier: Tier, rng: &mut Rng, 
         if is_freeze && rng.chance(0.5) {
             match rng.below(8) {
                 0 => plan.push("CN", &[]),
-                1 => plan.push("CE", &[rng.range(1, 2)]),
+                1 => plan.push("CE", &[rng.range(1, 3)]),
                 2 | 3 | 4 => plan.push("CS", &[tg.t, 1]),
                 _ => plan.push("CS", &[tg.t, 0]),
             }
@@ -235,6 +244,9 @@ pub fn gen_node(prop: &str, kind: &str, profile: u8, tier: Tier, rng: &mut Rng, 
         } else {
             let t = if profile == 2 && have_sample && rng.chance(0.15) {
                 tg.t // repeated timestamp
+            } else if tiny_dt && rng.chance(0.25) {
+                tg.t += *rng.pick(&[1, 2, 64, 118, 119, 120, 121, 999]);
+                tg.t
             } else {
                 tg.step(rng)
             };
